@@ -262,7 +262,10 @@ fn run_one_case(prop: &str, case: &Case, model: &mut model::ModelProc) -> Result
 
 /// delta-debugging over the byte-string tokens of the first line (cases without aux only)
 fn shrink(prop: &str, f: &Failure, model: &mut model::ModelProc) -> Failure {
-    if !f.case.aux.is_empty() || f.case.lines.len() > 4 {
+    // no shrinking for cases with side information, many lines, or huge inputs (each attempt would
+    // re-run gigabytes)
+    let huge = f.case.no_model || f.case.lines.iter().any(|l| l.len() > 20_000 || l.split(|c: char| c == '*' || c == ',' || c == ' ').any(|t| t.len() >= 6 && t.chars().all(|c| c.is_ascii_digit())));
+    if !f.case.aux.is_empty() || f.case.lines.len() > 4 || huge {
         return f.clone();
     }
     let mut best = f.clone();
@@ -350,7 +353,8 @@ fn cmd_run(args: &[String]) -> i32 {
     let mut shrink_model = model::ModelProc::start(&model).ok();
 
     let workers: Vec<Arc<Worker>> = (0..nw).map(|_| Arc::new(Worker { started: AtomicU64::new(0) })).collect();
-    // watchdog: a case running longer than 30 s is a hang
+    // watchdog: a case running longer than 60 s (thorough tier, which has 4 GiB cases: 30 min) is a hang
+    let hang_ms: u64 = if tier.thorough { 1_800_000 } else { 60_000 };
     {
         let ws = workers.clone();
         let od = outdir.clone();
@@ -359,7 +363,7 @@ fn cmd_run(args: &[String]) -> i32 {
             let now = t0.elapsed().as_millis() as u64;
             for (i, w) in ws.iter().enumerate() {
                 let s = w.started.load(Ordering::Relaxed);
-                if s != 0 && now > s + 30_000 {
+                if s != 0 && now > s + hang_ms {
                     let _ = std::fs::write(format!("{}/hang", od), format!("{}", i));
                     std::process::exit(3);
                 }
